@@ -12,7 +12,7 @@ EXTENDS Shake
 (* exports "x" if ownX) and a statement part that may use "x" or the        *)
 (* imported bindings.  (effect, removable) ranges over Cells.               *)
 
-CONSTANTS N, EdgeKinds, Cells, Back, AnnotateSets, Owns, UseKinds
+CONSTANTS N, EdgeKinds, Cells, DeclCells, Back, AnnotateSets, Owns, UseKinds
 
 ImpName(g) == <<"i1", "i2", "i3", "i4">>[g]
 Pairs == {<<f, g>> \in (1..N) \X (1..N) : f < g} \cup (IF Back /\ N > 2 THEN {<<N, 2>>} ELSE {})
@@ -72,7 +72,7 @@ EdgesDone ==
   /\ phase' = 1 /\ UNCHANGED <<edges, ch, G, DG, LV>>
 EdgeFn == [pr \in Pairs |-> edges[CHOOSE k \in 1..NP : PairSeq[k] = pr]]
 
-FileChoice == [own : Owns, c1 : {c \in Cells : c # <<FALSE, FALSE>>}, c2 : Cells, u2 : UseKinds]
+FileChoice == [own : Owns, c1 : DeclCells, c2 : Cells, u2 : UseKinds]
 
 PickFile ==
   /\ phase \in 1..N
@@ -120,4 +120,9 @@ AnnotNonEntry == SUBSET (2..N)
 AnnotNone == {{}}
 AllUses == {"none", "own", "imports"}
 OwnOrImports == {"own", "imports"}   \* "own" degenerates to no use in a file without a declaration
+NoneOrImports == {"none", "imports"}
+\* the declaration part: a pure declaration, or one with an effectful initialiser
+DeclPure == {<<FALSE, TRUE>>}
+DeclAny == {<<FALSE, TRUE>>, <<TRUE, FALSE>>}
+DeclUnsound == {<<FALSE, TRUE>>, <<TRUE, FALSE>>, <<TRUE, TRUE>>}
 =============================================================================
